@@ -81,6 +81,17 @@ def run(ck: Checker):
         probs.append('the target can run before the queue handler is installed: its first records are not forwarded')
     if any(target[0].id in reachable(cfg, [r.id]) for r in rem):
         probs.append('the handler is removed before the target runs')
+    # the child produces every record: its root logger is opened fully (DEBUG / NOTSET); which records are handled is the
+    # parent's decision at handling time, per logger -- a child level copied from the parent's root level at creation time
+    # drops the records of loggers the parent configured more verbosely than its root, and ignores later level changes
+    lv = [n for n in walk_deep_func(f.node) if isinstance(n, ast.Call) and method_of(n)[1] == 'setLevel']
+    for c_ in lv:
+        a_ = c_.args[0] if c_.args else None
+        open_ = (dotted(a_) in ('logging.DEBUG', 'logging.NOTSET', 'DEBUG', 'NOTSET')) or (isinstance(a_, ast.Constant) and isinstance(a_.value, int) and a_.value <= 10)
+        if not open_:
+            probs.append(f'L{c_.lineno}: the child\'s root logger is set to `{norm_text(a_) if a_ is not None else "?"}`, not DEBUG: records below that level are never produced, although the parent\'s per-logger levels (or a level changed after the Process was created) would let them through')
+    if not lv:
+        probs.append('the child does not open its root logger (setLevel(DEBUG)): only WARNING and above are produced')
     ck.ob('C20-2', f, add[0].ast, not probs, '; '.join(probs) if probs else 'the queue handler is installed on the root logger before the target is called')
     probs = []
     remids = {r.id for r in rem}
